@@ -89,6 +89,13 @@ func TestVerifC26Outage(t *testing.T) {
 	c26run(t, "C26-blocker-outage", mc.Pick(5, 6), mc.Pick(1, 2), 0, []int{1, 4, 5, 6})
 }
 
+// TestVerifC26Recovery: histories over flag, the two ways a flagged peer stops being flagged
+// (a success, a prune), network toggles and a sleep longer than the timeout: a peer whose
+// success or prune arrives during an outage is no longer flagged when the network returns.
+func TestVerifC26Recovery(t *testing.T) {
+	c26run(t, "C26-blocker-recovery-during-outage", mc.Pick(5, 6), mc.Pick(1, 2), 0, []int{1, 2, 3, 4, 6})
+}
+
 // c26run explores driver histories of up to depth operations; the alphabet is ops 1..nOps-1
 // or, when menu is given, exactly the listed operation numbers.
 func c26run(t *testing.T, name string, depth, maxDev, nOps int, menu []int) {
